@@ -22,7 +22,7 @@ use rustc_middle::mir::{
     self, AggregateKind, BasicBlockData, Body, Const, ConstValue, Operand, Place, PlaceElem,
     Rvalue, StatementKind, TerminatorKind, UnwindAction,
 };
-use rustc_middle::ty::print::{with_crate_prefix, with_no_trimmed_paths};
+use rustc_middle::ty::print::{with_crate_prefix, with_no_trimmed_paths, with_no_visible_paths};
 use rustc_middle::ty::{self, Instance, Ty, TyCtxt, TypingEnv};
 use rustc_span::Span;
 
@@ -181,18 +181,18 @@ impl<'tcx> Cx<'tcx> {
     }
 
     fn path(&self, did: DefId) -> String {
-        let s = with_no_trimmed_paths!(with_crate_prefix!(self.tcx.def_path_str(did)));
+        let s = with_no_visible_paths!(with_no_trimmed_paths!(with_crate_prefix!(self.tcx.def_path_str(did))));
         self.fix_path(s)
     }
 
     fn path_args(&self, did: DefId, args: ty::GenericArgsRef<'tcx>) -> String {
         let s =
-            with_no_trimmed_paths!(with_crate_prefix!(self.tcx.def_path_str_with_args(did, args)));
+            with_no_visible_paths!(with_no_trimmed_paths!(with_crate_prefix!(self.tcx.def_path_str_with_args(did, args))));
         self.fix(s)
     }
 
     fn ty(&self, t: Ty<'tcx>) -> String {
-        let s = with_no_trimmed_paths!(with_crate_prefix!(t.to_string()));
+        let s = with_no_visible_paths!(with_no_trimmed_paths!(with_crate_prefix!(t.to_string())));
         self.fix(s)
     }
 
